@@ -44,10 +44,13 @@ pub enum Shadow {
     LetInnerLast,
     /// `let <first segment> = ..` after the use (must not interfere)
     LetAfterFirst,
-    /// the match arm's pattern binds the first segment
+    /// the match arm's pattern binds the first segment (second-match-arm: the
+    /// pattern of the *other* arm does, which must not interfere)
     PatternFirst,
+    /// `let <first segment> = ..` in the sibling arm (must not interfere)
+    LetSiblingFirst,
 }
-const SHADOWS: [Shadow; 7] = [
+const SHADOWS: [Shadow; 8] = [
     Shadow::None,
     Shadow::LetInnerFirst,
     Shadow::LetOuterFirst,
@@ -55,6 +58,7 @@ const SHADOWS: [Shadow; 7] = [
     Shadow::LetInnerLast,
     Shadow::LetAfterFirst,
     Shadow::PatternFirst,
+    Shadow::LetSiblingFirst,
 ];
 
 #[derive(Clone, Copy, PartialEq, Eq, Debug)]
@@ -210,7 +214,8 @@ fn shadow_ok(sh: Shadow, nest: Nest, use_path: &Path) -> bool {
         Shadow::LetInnerFirst | Shadow::ParamFirst | Shadow::LetAfterFirst => !first_special,
         Shadow::LetOuterFirst => !first_special && nest.has_inner(),
         Shadow::LetInnerLast => use_path.len() > 1,
-        Shadow::PatternFirst => !first_special && nest == Nest::Match,
+        Shadow::PatternFirst => !first_special && matches!(nest, Nest::Match | Nest::Arm2),
+        Shadow::LetSiblingFirst => !first_special && nest.has_sibling(),
     }
 }
 
@@ -232,6 +237,7 @@ fn apply_shadow(p: &mut Prog, sh: Shadow) {
             if inner { p.inner.lets_after.push(first) } else { p.fnb.lets_after.push(first) }
         }
         Shadow::PatternFirst => p.pattern = Some(first),
+        Shadow::LetSiblingFirst => p.sibling_lets.push(first),
     }
 }
 
